@@ -26,6 +26,7 @@
 //	         len(x) -> len_x : Int64).
 //	ifcond – the condition of the nth `if` inside `func` whose printed condition contains `contains`.
 //	return – result `index` of the nth return statement inside `func`.
+//	expr   – the nth sub-expression inside `func` whose source text is exactly `text` (spaces ignored).
 //
 // Semantics notes (trusted base of the translator): Go `int` / `uint` are 64-bit (amd64 / arm64);
 // signed `/` and `%` truncate in both languages; a shift is accepted only with a constant count
@@ -59,6 +60,7 @@ type Item struct {
 	Func     string `json:"func"`
 	LHS      string `json:"lhs,omitempty"`
 	Contains string `json:"contains,omitempty"`
+	Text     string `json:"text,omitempty"`
 	Nth      int    `json:"nth,omitempty"`
 	Index    int    `json:"index,omitempty"`
 	Doc      string `json:"doc,omitempty"`
@@ -720,12 +722,20 @@ func translate(pi *pkgInfo, it Item, known map[string]string) (def string, err e
 		}
 		resType = strings.Join(rts, " × ")
 		origin = "func " + it.Func
-	case "assign", "ifcond", "return":
+	case "assign", "ifcond", "return", "expr":
 		var target ast.Expr
 		count := 0
 		ast.Inspect(fd.Body, func(n ast.Node) bool {
 			if target != nil {
 				return false
+			}
+			if ex, isExpr := n.(ast.Expr); isExpr && it.Kind == "expr" {
+				if strings.Join(strings.Fields(t.src(ex)), "") == strings.Join(strings.Fields(it.Text), "") {
+					if count == it.Nth {
+						target = ex
+					}
+					count++
+				}
 			}
 			switch x := n.(type) {
 			case *ast.AssignStmt:
